@@ -1,7 +1,7 @@
 (* Properties_C11.v -- any pattern string is safely rejected or compiled; matching stays in bounds.
    Statements only; proofs are in ReProps*.v. *)
 From Coq Require Import List NArith ZArith.
-From NV Require Import Bytes GenConsts ReSyntax ReParse ReEmit ReVM ReSem RsetDefs ReProps ReProps2 ReProps3.
+From NV Require Import Bytes GenConsts ReSyntax ReParse ReEmit ReVM ReSem RsetDefs ReProps ReProps2 ReProps3 ReProps5.
 Import ListNotations.
 
 (* for EVERY byte string: if regcomp accepts it, the emitted program (MARK 0, code, MARK 1, MATCH)
@@ -22,6 +22,25 @@ Print Assumptions C11_emit_fits_tree.
 Theorem C11_parser_counts_wf : forall f s t s', rnode_parse f s = Ok (Some t, s') -> wf_node t.
 Proof. exact rnode_parse_wf. Qed.
 Print Assumptions C11_parser_counts_wf.
+
+(* the compiled program of EVERY accepted pattern string: the last instruction is MATCH; every JUMP
+   target and every second FORK target lies strictly ahead and inside the program, every first FORK
+   target (next instruction or the loop-back) lies inside the program, an ATOM or MARK is never last --
+   so every instruction fetch re->p[pc] is in range and the pc strictly increases within one
+   activation of re_rec *)
+Theorem C11_wf_prog : forall (pat : bytes) (p : prog), regcomp pat = Ok (Some p) -> prog_wf (code p).
+Proof. exact regcomp_prog_wf. Qed.
+Print Assumptions C11_wf_prog.
+
+(* C11_terminates, full statement: for every accepted pattern and every line, regexec returns without
+   fuel exhaustion.  Proved here: the machine never exhausts its pc fuel (|P|+1 per activation, any
+   depth) on the program of any accepted pattern PROVIDED the atom matcher does not exhaust its own
+   fuel; missing: ratom_match <> NoFuel (chr_icase, brk_match) -- see design.d/C11.md *)
+Theorem C11_terminates_partial : forall St (atom_step : atom -> St -> res (option St)) (mark_step : nat -> St -> St) (pat : bytes) (p : prog),
+  regcomp pat = Ok (Some p) -> (forall a s, atom_step a s <> NoFuel) ->
+  forall d pc s, pc < length (code p) -> fst (rec St atom_step mark_step (code p) d pc s) <> Abort.
+Proof. exact terminates_partial. Qed.
+Print Assumptions C11_terminates_partial.
 
 Example C11_nonvacuous : exists p, regcomp [40; 97; 123; 50; 44; 51; 125; 41]%N = Ok (Some p).
 Proof. eexists. vm_compute. reflexivity. Qed.
